@@ -15,7 +15,7 @@ INFO = {
         'sum over tied pairs of 2*kappa/c_iq^2) is unsatisfiable. A sat answer is replayed on the real float code before it is reported.'),
     'bounds': {
         'quick': 'PL/BT: shapes (1,1),(2,1),(1,1,1) x all 3/3/13 weak orders, (2,2) x 3; TM: (1,1) x 3 orders, (2,1) strict orders, (1,1,1) strict: two orders partial pairing, one order full pairing',
-        'thorough': 'PL/BT: + (1,1,1,1) x 75 weak orders, (1,2,1), (2,2); PL 5 single-player teams strict; TM: (1,1),(2,1) all orders, (1,1,1) strict orders, TM-part (1,1,1) with one tie',
+        'thorough': 'PL/BT: + (1,1,1,1) x 75 weak orders, (1,2,1), (2,2); PL 5 single-player teams strict; TM: (1,1),(2,1) all orders, (1,1,1) strict orders, ',
     },
     'outside': ['IEEE rounding (the identity is decided over the reals; floats only in replays)',
                 'more than 4 teams (PL: 5) / more than 2 players per team; TM full pairing with 3+ teams'],
@@ -68,7 +68,7 @@ def jobs(tier):
         for W in [(1, 0, 2), (2, 1, 0), (1, 2, 0)]:
             add('tmp', (1, 1, 1), W, 1800, 400)
             add('tmf', (1, 1, 1), W, 2400, 900)
-        add('tmp', (1, 1, 1), (1, 0, 1), 2400, 900)
+        # TM-part (1,1,1) with one tie (1,0,1): 5 of its obligations stay `unknown` on the clean tree (two end-to-end runs): not registered
     return out
 
 
